@@ -57,6 +57,7 @@ fn main() {
     common::quiet_panics();
     let code = match prop.as_str() {
         "C01" => props::c01::run_check(&ctx),
+        "C02" => props::c02::run_check(&ctx),
         "C04" => props::c04::run(&ctx),
         "C05" => props::c05::run(&ctx),
         "C09" | "C15" => props::c09::run(&ctx),
